@@ -8,6 +8,9 @@ package value
 //   - every r.Element stored in the heap is a non-nil interface holding a non-nil pointer (built into znvc);
 //   - the fields below are never nil.
 
+// booleans, 空 and exceptions never change after construction (store-site inventory, re-checked on every run)
+//@ frozen Bool Null Exception
+
 //@ fieldinv HashMap.value nonnil
 //@ fieldinv Object.propList nonnil
 //@ fieldinv Object.model nonnil
